@@ -215,7 +215,10 @@ def stream_pool():
                 ('E-ed4-empty-sec2', 4, b'', [1001], 1, False),
                 ('F-ed4-message-in-data', 4, None, [205000 + len(_inner())], 1, False),
                 ('G-ed4-trailing-delayed-repl', 4, None, [1001, 101000, 31001, 2001], 1, False),
-                ('H-ed3-comp-repl', 3, None, [1001, 5002, 102002, 2001, 10], 2, True)]
+                ('H-ed3-comp-repl', 3, None, [1001, 5002, 102002, 2001, 10], 2, True),
+                # (used in the single-message streams only) compressed with a delayed replication; a bitmap with quality values
+                ('I-ed4-comp-delayed', 4, None, [1001, 101000, 31001, 12001], 3, True),
+                ('J-ed4-bitmap', 4, None, [1001, 1002, 12001, 222000, 236000, 101003, 31031, 31021, 101002, 33007], 1, False)]
         out = []
         for name, ed, s2, descs, nsub, comp in defs:
             def ch(info, comp=comp, nsub=nsub):
@@ -223,6 +226,8 @@ def stream_pool():
                     v = _inner()      # a complete valid message, octet aligned, inside the data section
                 elif info['kind'] == 'str':
                     v = (b'BUFR' if info['index'] == 0 else b'7777')[:info['width'] // 8]
+                elif info.get('role') == 'bit':
+                    v = [0, 1, 0][info['index'] % 3]
                 elif info.get('role') == 'factor':
                     v = 2
                 else:
@@ -579,13 +584,14 @@ def main(tier, seed):
     p.n['nodes'], p.n['edges'] = p.n['exec'] + 1, p.n['exec']
     rep.add_part('trailing', p, bounds={'messages': len(tmsgs), 'trailers': 6})
     idx = range(len(stream_pool()))
+    idx8 = range(8)           # the two last pool messages take part in the single-message streams only
     # full menu with one damaged message at every position; reduced ("core") menu where several are damaged at once
     # the 'mini' menu (stop signature, undefined element) keeps streams affordable in which two messages of different
     # lengths are damaged and undamaged ones follow (a skip distance taken from the wrong message loses them)
     plan = ([(1, 1, 'full'), (2, 1, 'full'), (2, 2, 'core'), (3, 1, 'core'), (3, 2, 'mini')] if tier == 'quick' else
             [(1, 1, 'full'), (2, 1, 'full'), (3, 1, 'full'), (2, 2, 'full'), (3, 2, 'core'), (4, 1, 'core'), (4, 2, 'mini')])
     for j, bound, menu in plan:
-        tuples = list(itertools.product(idx, repeat=j))
+        tuples = list(itertools.product(idx if j == 1 else idx8, repeat=j))
         p = merge_all(run_shards(run_streams, [(s, bound, menu) for s in split(tuples, 64)]))
         nf = [len([f for f in x[2] if menu == 'full' or (menu == 'core' and core_fault(f[0])) or (menu == 'mini' and mini_fault(f[0]))])
               for x in stream_pool()]
@@ -599,12 +605,12 @@ def main(tier, seed):
              [(c, j, b, m) for c in (0, 4) for j, b, m in ((2, 2, 'core'), (3, 2, 'mini'))])
     for ccmax, j, bound, menu in cplan:
         if True:
-            tuples = list(itertools.product(idx, repeat=j))
+            tuples = list(itertools.product(idx8, repeat=j))
             p = merge_all(run_shards(run_streams, [(s, bound, menu, ccmax) for s in split(tuples, 64)]))
             rep.add_part('streams-compiled%d-j%d-d%d-%s' % (ccmax, j, bound, menu), p,
                          bounds={'messages_in_stream': j, 'max_damaged': bound, 'pool': len(idx), 'menu': menu,
                                  'compiled_template_cache_max': ccmax, 'modes': ['full/continue', 'full/stop']})
-    p = merge_all(run_shards(run_history, [[i] for i in idx]))
+    p = merge_all(run_shards(run_history, [[i] for i in idx8]))
     rep.add_part('decoder-history', p, bounds={'pool': len(idx), 'faults': 'full menu', 'earlier_operations': PRE_OPS,
                                                'modes': 4, 'stream': '[good, damaged, good]'})
     p = run_cli_part(None)
